@@ -17,6 +17,11 @@ ASSUMPTIONS = ["transports accept >= 1 byte per write and honour the timeout the
                "read(n) with n >= 0; READ_CHUNK_SIZE > 0"]
 
 
+# bytes a black-list may hold: besides letters and control characters every byte that is special in a regex
+# character class, a format string or a bytes.translate table
+BL_ALPHA = b"abx\r\n\x03]\\^-[.%\x00"
+
+
 def gen_case(rng, params):
     chunk = rng.choice([1, 2, 3, 5, params["readChunkSize"]])
     n_p = rng.randint(0, 8)
@@ -26,6 +31,7 @@ def gen_case(rng, params):
         pieces = [g.rbytes(rng, rng.randint(1, 9)) for _ in range(n_p)]
     ticks = g.schedule(rng, pieces)
     accept = [rng.choice([1, 1, 2, 3, 5, 1000]) for _ in range(rng.randint(0, 12))]
+    walpha = g.ALPHA
     ops = []
     for _ in range(rng.randint(1, 12)):
         k = rng.random()
@@ -39,16 +45,17 @@ def gen_case(rng, params):
         elif k < 0.55:
             ops.append(f"rl:{hx(rng.choice([b'\r\n', b'\n', b'ab', b'x']))}:{t}")
         elif k < 0.65:
-            ops.append(f"wr:{hx(g.rbytes(rng, rng.randint(0, 10)))}:{rng.choice('001')}")
+            ops.append(f"wr:{hx(g.rbytes(rng, rng.randint(0, 10), walpha))}:{rng.choice('001')}")
         elif k < 0.75:
             n = rng.choice([0, 1, 3, 8, 8, params['sendSliceSize'] - 1, params['sendSliceSize'], params['sendSliceSize'] + 5, 1100])
-            ops.append(f"send:{hx(g.rbytes(rng, n, b'abx\r\n'))}:{rng.choice('0001')}:{t}:{rng.choice('001')}")
+            ops.append(f"send:{hx(g.rbytes(rng, n, walpha if n < 20 else b'abx\r\n'))}:{rng.choice('0001')}:{t}:{rng.choice('001')}")
         elif k < 0.82:
-            ops.append(f"sl:{hx(g.rbytes(rng, rng.randint(0, 8)))}:{rng.choice('0001')}:{t}")
+            ops.append(f"sl:{hx(g.rbytes(rng, rng.randint(0, 8), walpha))}:{rng.choice('0001')}:{t}")
         elif k < 0.87:
             ops.append(f"sc:{rng.choice([0, 1, 3, 4, 13, 31, 32, 40])}")
         elif k < 0.93:
-            ops.append(f"bl:{hx(bytes(rng.sample(list(b'abx\r\n\x03'), rng.randint(0, 3))))}")
+            ops.append(f"bl:{hx(bytes(rng.sample(list(BL_ALPHA), rng.randint(0, 3))))}")
+            walpha = g.ALPHA + BL_ALPHA
         else:
             ops.append(f"slow:{opt(rng.choice([None, 0, 10, 512]))}:{rng.choice([1, 2, 3, 32])}")
     return g.case_line(chunk, params["sendSliceSize"], g.script_wire(ticks, pieces), accept, ops)
